@@ -260,7 +260,11 @@ func main() {
 			res.AddSample(map[string]any{"case": c, "go": goOut[i], "model": ans[i]})
 		}
 	}
-	res.Evaluations = int64(len(cases) + len(oneReq))
+	// stacked writers: outer = NewWriter(inner, p2), inner = NewWriter(sink, p1), Write calls
+	// addressed to either of them in every interleaving (a line may be open at a hand-over)
+	nestedN := nested(f, res, maxLen-2)
+	res.Distribution["nested_writer_cases"] = nestedN
+	res.Evaluations = int64(len(cases)+len(oneReq)) + nestedN
 	res.DistinctNontrivial = nontrivial
 	res.Exhaustive = true
 	res.Rule = fmt.Sprintf("complete enumeration: texts of <= %d symbols over {a, LF, e-acute(2 bytes)} x prefixes {>, >>, e-acute} x all splittings of the bytes into Write calls (plus empty Writes) x (no failure | the underlying writer stopping after k bytes of any one Write, k = 0..len handed down, k = len meaning full length reported together with an error); comparison stops at the first failing Write. distinct_nontrivial = distinct cases with a line feed in the text and either more than one Write or a short write", maxLen)
@@ -323,6 +327,79 @@ func specVerdict(d *lib.Driver, c tcase, goLine string) (string, string) {
 	return "holds", "go output satisfies the specification"
 }
 
+// nested enumerates texts of <= maxSym symbols x chunkings x every assignment of the chunks to the
+// outer or the inner writer, for two prefix pairs; all writes succeed. The sink must receive what
+// the composed model computes and every Write must return len(chunk).
+func nested(f *lib.Flags, res *lib.Result, maxSym int) int64 {
+	alphabet := [][]byte{[]byte("a"), []byte("\n"), []byte(">")}
+	texts := [][]byte{}
+	frontier := [][]byte{{}}
+	for l := 1; l <= maxSym; l++ {
+		var next [][]byte
+		for _, t := range frontier {
+			for _, a := range alphabet {
+				next = append(next, append(append([]byte{}, t...), a...))
+			}
+		}
+		texts = append(texts, next...)
+		frontier = next
+	}
+	type ncase struct {
+		P1, P2 string
+		Chunks []string
+		Outer  []bool
+	}
+	var cases []ncase
+	var reqs, goOut []string
+	for _, pp := range [][2]string{{">", "  "}, {"> ", ">"}} {
+		for _, t := range texts {
+			for _, parts := range compositions(t, false) {
+				for mask := 0; mask < 1<<len(parts); mask++ {
+					c := ncase{P1: pp[0], P2: pp[1]}
+					var sink bytes.Buffer
+					inner := indent.NewWriter(&sink, pp[0])
+					outer := indent.NewWriter(inner, pp[1])
+					var rs strings.Builder
+					req := "nested " + lib.HexS(pp[0]) + " " + lib.HexS(pp[1])
+					for i, p := range parts {
+						o := mask&(1<<i) != 0
+						c.Chunks = append(c.Chunks, lib.Hex(p))
+						c.Outer = append(c.Outer, o)
+						w := inner
+						tag := "i"
+						if o {
+							w, tag = outer, "o"
+						}
+						n, err := w.Write(p)
+						if err != nil {
+							n = -1
+						}
+						fmt.Fprintf(&rs, " %d", n)
+						req += " " + lib.Hex(p) + " " + tag
+					}
+					cases = append(cases, c)
+					reqs = append(reqs, req)
+					goOut = append(goOut, lib.Hex(sink.Bytes())+" ;"+rs.String())
+				}
+			}
+		}
+	}
+	ans, err := lib.ParBatch(f.Driver, reqs, f.Procs)
+	if err != nil {
+		lib.Fatal("driver: %v", err)
+	}
+	for i := range cases {
+		if ans[i] != goOut[i] {
+			// the specification: the sink receives the inner rendering of (the outer rendering of the
+			// outer-addressed text interleaved with the inner-addressed text) — the model composes the
+			// two proved writers, so a difference from it is a difference from the specification
+			res.AddDisagreement(lib.Disagreement{Kind: "correspondence", Input: cases[i], Go: goOut[i], Model: ans[i], SpecVerdict: "violates",
+				What: "stacked indent writers: what reached the sink / the returned counts differ from the composition of the two writers", Replay: map[string]any{"nested": reqs[i]}})
+		}
+	}
+	return int64(len(cases))
+}
+
 func replay(f *lib.Flags) {
 	raw, err := os.ReadFile(f.Replay)
 	if err != nil {
@@ -341,6 +418,37 @@ func replay(f *lib.Flags) {
 		lib.Fatal("%v", err)
 	}
 	defer d.Close()
+	var nst struct {
+		Nested string `json:"nested"`
+	}
+	if json.Unmarshal(p.Disagreement.Replay, &nst) == nil && nst.Nested != "" {
+		fs := strings.Fields(nst.Nested)
+		p1, _ := lib.UnHex(fs[1])
+		p2, _ := lib.UnHex(fs[2])
+		var sink bytes.Buffer
+		inner := indent.NewWriter(&sink, string(p1))
+		outer := indent.NewWriter(inner, string(p2))
+		var rs strings.Builder
+		for i := 3; i+1 < len(fs); i += 2 {
+			ch, _ := lib.UnHex(fs[i])
+			w := inner
+			if fs[i+1] == "o" {
+				w = outer
+			}
+			n, err := w.Write(ch)
+			if err != nil {
+				n = -1
+			}
+			fmt.Fprintf(&rs, " %d", n)
+		}
+		g := lib.Hex(sink.Bytes()) + " ;" + rs.String()
+		m, _ := d.Ask(nst.Nested)
+		fmt.Printf("input: %s\ngo:    %s\nmodel: %s\n", nst.Nested, g, m)
+		if g != m {
+			os.Exit(1)
+		}
+		return
+	}
 	var one struct {
 		Oneshot string `json:"oneshot"`
 	}
